@@ -112,20 +112,35 @@ func c11Graph(c *c11Case) (*gen.Graph, map[string]string) {
 	return g, refs
 }
 
+// "x:<ref>" delivers an event with the listener's name but the wrong flavour:
+// a message carrying an operation to a definition without one, a message
+// without / with another operation to a definition with one, a message to a
+// signal definition (and vice versa). It matches nothing.
 func c11Alphabet(shape string) []string {
 	switch shape {
 	case "seq":
-		return []string{"e:r1", "e:r2", "e:zz", "a:t1", "a:t2"}
+		return []string{"e:r1", "e:r2", "e:zz", "x:r1", "a:t1", "a:t2"}
 	case "par":
-		return []string{"e:r1", "e:r2", "e:zz", "a:t1", "a:t2"}
+		return []string{"e:r1", "e:r2", "e:zz", "x:r2", "a:t1", "a:t2"}
 	case "twin":
-		return []string{"e:r1", "e:r2", "e:zz", "a:t1", "a:t3"}
+		return []string{"e:r1", "e:r2", "e:zz", "x:r1", "a:t1", "a:t3"}
 	case "behind":
-		return []string{"e:r1", "e:zz", "a:t0", "a:t1"}
+		return []string{"e:r1", "e:zz", "x:r1", "a:t0", "a:t1"}
 	case "never":
-		return []string{"e:r1", "e:r2", "e:zz", "a:t1"}
+		return []string{"e:r1", "e:r2", "e:zz", "x:r1", "a:t1"}
 	}
 	return nil
+}
+
+func c11Cross(kind, ref string) []event.IEvent {
+	op1, op2 := "op1", "op2"
+	switch kind {
+	case "message":
+		return []event.IEvent{event.NewMessageEvent(ref, &op1), event.NewSignalEvent(ref)}
+	case "messageop":
+		return []event.IEvent{event.NewMessageEvent(ref, nil), event.NewMessageEvent(ref, &op2), event.NewSignalEvent(ref)}
+	}
+	return []event.IEvent{event.NewMessageEvent(ref, nil), event.NewMessageEvent(ref, &op1)}
 }
 
 func c11Cases(tier string, seed uint64) []fw.Case {
@@ -167,7 +182,7 @@ func c11Cases(tier string, seed uint64) []fw.Case {
 			for j := 0; j < l; j++ {
 				a := alpha[rng.Intn(len(alpha))]
 				if rng.Intn(3) == 0 {
-					a = alpha[rng.Intn(3)%len(alpha)] // bias towards events
+					a = alpha[rng.Intn(4)%len(alpha)] // bias towards events
 				}
 				h = append(h, a)
 			}
@@ -251,6 +266,11 @@ func c11Run(c *c11Case, env *fw.Env, v *fw.V) {
 			for _, id := range fire {
 				m.Fire(id)
 			}
+		case "x":
+			for _, ev := range c11Cross(c.Kind, arg) {
+				in.Go("ConsumeEvent", func() error { _, err := in.Proc.ConsumeEvent(ev); return err })
+				delivered++
+			}
 		case "a":
 			var req *drive.Req
 			for _, r := range in.Pending() {
@@ -307,7 +327,7 @@ func init() {
 			c11Run(&cc, env, v)
 			ne := 0
 			for _, h := range cc.Hist {
-				if strings.HasPrefix(h, "e:") {
+				if strings.HasPrefix(h, "e:") || strings.HasPrefix(h, "x:") {
 					ne++
 				}
 			}
